@@ -178,7 +178,7 @@ func (g *Gen) union(name string) *UnionDecl {
 
 // --- type declarations ---------------------------------------------------------------------
 
-var strPool = []string{"", "a", "b", "ab", "xyz", "hello", "A b", "q", "zz", "rect", "circle", "t\tb", "q\"q", "b\\s", "l\nm"}
+var strPool = []string{"", "a", "b", "ab", "xyz", "hello", "A b", "q", "zz", "rect", "circle", "t\tb", "q\"q", "b\\s", "l\nm", "50%", "%d"}
 
 // fieldTypePool: types usable for fields / payloads given what is declared so far.
 func (g *Gen) dataTypes(depth int) []*Type {
@@ -773,9 +773,9 @@ func (g *Gen) intLib(sc *scope, depth int) *Expr {
 func (g *Gen) stringLib(sc *scope, depth int) *Expr {
 	switch g.intn(8, "stringLib") {
 	case 0:
-		return Call("frt.Sprintf1", TString, Str([]string{"%d", "n=%d", "<%d>"}[g.intn(3, "fmtD")]), g.expr(sc, TInt, depth-1))
+		return Call("frt.Sprintf1", TString, Str([]string{"%d", "n=%d", "<%d>", "%d%%"}[g.intn(4, "fmtD")]), g.expr(sc, TInt, depth-1))
 	case 1:
-		return Call("frt.Sprintf1", TString, Str([]string{"%s", "[%s]", "%s!"}[g.intn(3, "fmtS")]), g.expr(sc, TString, depth-1))
+		return Call("frt.Sprintf1", TString, Str([]string{"%s", "[%s]", "%s!", "%s: 100%% done", "%%%s"}[g.intn(5, "fmtS")]), g.expr(sc, TString, depth-1))
 	case 2:
 		vt := g.pickDataType("fmtVType")
 		if !g.printable(vt) {
@@ -1264,7 +1264,7 @@ func (g *Gen) unitExpr(sc *scope, depth int) *Expr {
 	case 0:
 		return Call("frt.Println", TUnit, g.expr(sc, TString, depth))
 	case 1:
-		return Call("frt.Printf1", TUnit, Str([]string{"%d\n", "i=%d\n"}[g.intn(2, "pfD")]), g.expr(sc, TInt, depth))
+		return Call("frt.Printf1", TUnit, Str([]string{"%d\n", "i=%d\n", "%d%%\n"}[g.intn(3, "pfD")]), g.expr(sc, TInt, depth))
 	case 2:
 		vt := g.pickDataType("printType")
 		if !g.printable(vt) {
